@@ -1,6 +1,6 @@
 /-
   C16 — JSON round trip preserves meaning, explicit ids and defaults.
-  Two theorems:
+  Theorems:
   * `frag_roundtrip` — the fragment variable / AtLeast (any sign and value — the part repaired by
     the fix for finding F16a) / AtMost / Any / All / Xor / ExactlyOne, nested arbitrarily: the model
     read back evaluates identically on EVERY assignment and has the same leaf variables and bounds.
@@ -9,11 +9,16 @@
     identically on every assignment inside the leaf bounds.  The work is `nrt_node`: the JSON that
     `to_json` writes for the negation of the condition held (`toJsonNeg`, mirroring `negate`'s case
     analysis) reads back as the complement.
+  * `build_roundtrip` — the same statement for what the constructors build: every constructor
+    expression over the plog classes (`RTExpr`) builds a model of the fragment (`build_fragN`:
+    closure of `FragN` under `negate`, and the shape each constructor produces — `fragN_mkXor`,
+    `fragN_mkImply`, `fragN_mkXNor`, …).
+  * `defaults_kept`, `id_written_iff` — defaults and explicit ids.
   For All the proofs need the children to stay pairwise distinct after the round trip
   (`DistinctRT`) — exactly what fails on the models of known finding F16f.
-  PARTIAL: the configurator classes (cc.Any / cc.Xor with defaults, StingyConfigurator) and
-  "keeps defaults" are covered by the correspondence (toJson / toAst + build against the real
-  code) and the oracle only; explicit ids: `id_written_iff` (all classes).
+  PARTIAL: evaluation / default priorities / polyhedron of the configurator classes (cc.Any /
+  cc.Xor with defaults, StingyConfigurator) are covered by the correspondence (toJson / toAst +
+  build against the real code) and the oracle only.
 -/
 import Puan.Model.Json
 import Puan.Lemmas.Build
@@ -733,6 +738,398 @@ theorem id_written_iff (i b s v ks) (m : Meta) :
     idOf (toJson (.node i b s v ks m)) = if m.gen then none else some i := by
   cases hc : m.cls <;> simp only [toJson, hc, idJ] <;> (try split) <;> rfl
 
+/-! ## What the constructors build lies in the fragment
+
+`FragN` is a predicate on the model held.  The lemmas below show that the models the constructors build satisfy it, so that
+`fragN_roundtrip` becomes a statement about constructor expressions (`build_roundtrip`). -/
+
+theorem FragNL_iff : ∀ ks : List P, FragNL ks ↔ ∀ k ∈ ks, FragN k
+  | [] => by simp [FragNL]
+  | k :: ks => by simp [FragNL, FragNL_iff ks]
+
+theorem FragNL_perm {l1 l2 : List P} (h : l1.Perm l2) : FragNL l1 ↔ FragNL l2 := by
+  simp only [FragNL_iff]; exact ⟨fun H k hk => H k (h.mem_iff.2 hk), fun H k hk => H k (h.mem_iff.1 hk)⟩
+
+theorem fragN_leaflike : ∀ a : P, a.isLeaf = true → FragN a
+  | .leaf .., _ => by simp [FragN]
+  | .node .., h => by simp [isLeaf] at h
+
+theorem fragN_atLeast_node (i b s v ks) (m : Meta) (hm : m.cls = .atLeast) (hs : s = 1 ∨ s = -1) (hk : ∀ k ∈ ks, FragN k) :
+    FragN (.node i b s v ks m) := by
+  simp only [FragN]
+  exact ⟨Or.inl ⟨hm, hs⟩, (FragNL_iff ks).2 hk⟩
+
+theorem fragN_node_inv (i b s v ks m) (h : FragN (.node i b s v ks m)) : (s = 1 ∨ s = -1) ∧ ∀ k ∈ ks, FragN k := by
+  simp only [FragN] at h
+  obtain ⟨hc, hk⟩ := h
+  refine ⟨?_, (FragNL_iff ks).1 hk⟩
+  rcases hc with ⟨_, hs⟩ | ⟨_, hs⟩ | ⟨_, hs, _⟩ | ⟨_, _, hs, _⟩ | ⟨_, hs, _⟩ | ⟨_, hs, _⟩ | ⟨_, hs, _⟩
+  · exact hs
+  · exact Or.inr hs
+  · exact Or.inl hs
+  · rw [hs]; split <;> simp
+  · exact Or.inl hs
+  · exact Or.inl hs
+  · exact Or.inl hs
+
+mutual
+/-- the fragment is closed under `negate` -/
+theorem fragN_negate : ∀ p, FragN p → FragN (negate p)
+  | .leaf i b, h => by simpa [negate] using h
+  | .node i b s v ks m, h => by
+      have ⟨hs, hk'⟩ := fragN_node_inv i b s v ks m h
+      have hnp := fragN_negPairs ks hk'
+      have hnegs : ∀ k ∈ (sortPairs (negPairs ks)).map (·.2), FragN k := by
+        intro k hk
+        obtain ⟨p, hp, rfl⟩ := List.mem_map.1 hk
+        exact hnp p ((List.mergeSort_perm _ _).mem_iff.1 hp)
+      have hsorted : ∀ k ∈ sortById ks, FragN k := fun k hk => hk' k ((sortById_perm ks).mem_iff.1 hk)
+      have hatoms : ∀ a ∈ (sortById ks).filter (·.isLeaf), FragN a := fun a ha => hsorted a (List.mem_filter.1 ha).1
+      have hgrp : ∀ l : List P, (∀ a ∈ l, FragN a) → FragN (negGroup l) := fun l hl =>
+        fragN_atLeast_node _ _ _ _ l _ rfl (Or.inr rfl) hl
+      have hneg : -s = 1 ∨ -s = -1 := by rcases hs with rfl | rfl <;> simp
+      simp only [negate]
+      split
+      · split
+        · exact fragN_atLeast_node _ _ _ _ _ _ rfl (Or.inl rfl) hnegs
+        · split
+          · apply fragN_atLeast_node _ _ _ _ _ _ rfl (Or.inl rfl)
+            intro k hk
+            rcases List.mem_append.1 hk with h | h
+            · exact hnegs k h
+            · simp at h; rw [h]; exact hgrp _ hatoms
+          · split
+            · apply fragN_atLeast_node _ _ _ _ _ _ rfl (Or.inl rfl)
+              intro k hk
+              rcases List.mem_append.1 hk with h | h
+              · exact hnegs k h
+              · obtain ⟨a, ha, rfl⟩ := List.mem_map.1 h
+                exact hgrp [a] (by intro x hx; simp at hx; rw [hx]; exact hatoms a ha)
+            · exact fragN_atLeast_node _ _ _ _ _ _ rfl hneg hsorted
+      · exact fragN_atLeast_node _ _ _ _ _ _ rfl hneg hsorted
+theorem fragN_negPairs : ∀ ks : List P, (∀ k ∈ ks, FragN k) → ∀ p ∈ negPairs ks, FragN p.2
+  | [], _ => by simp [negPairs]
+  | .leaf i b :: ks, h => by
+      simpa [negPairs] using fragN_negPairs ks (fun k hk => h k (by simp [hk]))
+  | .node i b s v ks' m :: ks, h => by
+      intro p hp
+      simp only [negPairs, List.mem_cons] at hp
+      rcases hp with rfl | hp
+      · exact fragN_negate _ (h _ (by simp))
+      · exact fragN_negPairs ks (fun k hk => h k (by simp [hk])) p hp
+end
+
+theorem perm_pair {α} {l : List α} {a b : α} (h : l.Perm [a, b]) : l = [a, b] ∨ l = [b, a] := by
+  have hl := h.length_eq
+  match l, hl, h with
+  | [x, y], _, h =>
+    have hx : x ∈ [a, b] := h.mem_iff.1 (by simp)
+    simp only [List.mem_cons, List.not_mem_nil, or_false] at hx
+    rcases hx with rfl | rfl
+    · have h2 : [y].Perm [b] := (List.perm_cons x).1 h
+      have := List.perm_singleton.1 h2
+      simp at this; subst this; exact Or.inl rfl
+    · have h2 : [x, y].Perm [x, a] := h.trans (List.Perm.swap x a [])
+      have h3 : [y].Perm [a] := (List.perm_cons x).1 h2
+      have := List.perm_singleton.1 h3
+      simp at this; subst this; exact Or.inr rfl
+
+theorem sortById_length (l : List P) : (sortById l).length = l.length := (sortById_perm l).length_eq
+
+theorem sgn_pm (v : Int) (sgn : Option Int) (hs : sgn = none ∨ sgn = some 1 ∨ sgn = some (-1)) :
+    sgn.getD (if v > 0 then 1 else -1) = 1 ∨ sgn.getD (if v > 0 then 1 else -1) = -1 := by
+  rcases hs with rfl | rfl | rfl <;> simp
+  omega
+
+/-- `AtLeast(v, props, variable, sign)` over propositions of the fragment -/
+theorem fragN_mkAtLeast (v : Int) (ks : List P) (var sgn) (hs : sgn = none ∨ sgn = some 1 ∨ sgn = some (-1))
+    (hk : ∀ k ∈ ks, FragN k) : FragN (mkAtLeast v ks var sgn) := by
+  have hk' : ∀ k ∈ sortById ks, FragN k := fun k h => hk k ((sortById_perm ks).mem_iff.1 h)
+  unfold mkAtLeast
+  cases var with
+  | none => exact fragN_atLeast_node _ _ _ _ _ _ rfl (sgn_pm v sgn hs) hk'
+  | some x => exact fragN_atLeast_node _ _ _ _ _ _ rfl (sgn_pm v sgn hs) hk'
+
+theorem fragN_mkAtMost (v : Int) (ks : List P) (var) (hk : ∀ k ∈ ks, FragN k) : FragN (mkAtMost v ks var) := by
+  have hk' : FragNL (sortById ks) := (FragNL_iff _).2 (fun k h => hk k ((sortById_perm ks).mem_iff.1 h))
+  unfold mkAtMost mkAtLeast
+  cases var with
+  | none => unfold FragN; exact ⟨Or.inr (Or.inl ⟨rfl, rfl⟩), hk'⟩
+  | some x => unfold FragN; exact ⟨Or.inr (Or.inl ⟨rfl, rfl⟩), hk'⟩
+
+theorem fragN_mkAny (args : List (Bool × P)) (oid) (hk : ∀ k ∈ args.map (·.2), FragN k) : FragN (mkAny args oid) := by
+  have hk' : FragNL (sortById (orderArgs args)) := (FragNL_iff _).2 (fun k h =>
+    hk k ((C04.orderArgs_perm args).mem_iff.1 ((sortById_perm _).mem_iff.1 h)))
+  unfold mkAny mkAtLeast
+  cases hv : varOf oid with
+  | none => unfold FragN; exact ⟨Or.inr (Or.inr (Or.inl ⟨rfl, by simp, rfl⟩)), hk'⟩
+  | some x => unfold FragN; exact ⟨Or.inr (Or.inr (Or.inl ⟨rfl, by simp, rfl⟩)), hk'⟩
+
+theorem orderArgs_length (l : List (Bool × P)) : (orderArgs l).length = l.length := by
+  have := (C04.orderArgs_perm l).length_eq
+  simpa using this
+
+/-- `All(*props)`: the arguments are pairwise distinct and stay so after the round trip -/
+theorem fragN_mkAll (args : List (Bool × P)) (oid) (hd : distinctCount args = args.length)
+    (hrt : DistinctRT (sortById (orderArgs args))) (hk : ∀ k ∈ args.map (·.2), FragN k) : FragN (mkAll args oid) := by
+  have hk' : FragNL (sortById (orderArgs args)) := (FragNL_iff _).2 (fun k h =>
+    hk k ((C04.orderArgs_perm args).mem_iff.1 ((sortById_perm _).mem_iff.1 h)))
+  have hlen : ((sortById (orderArgs args)).length : Int) = (distinctCount args : Int) := by
+    rw [sortById_length, orderArgs_length, hd]
+  unfold mkAll mkAtLeast
+  cases hv : varOf oid with
+  | none =>
+      unfold FragN
+      exact ⟨Or.inr (Or.inr (Or.inr (Or.inl ⟨rfl, hlen.symm, rfl, hrt⟩))), hk'⟩
+  | some x =>
+      unfold FragN
+      exact ⟨Or.inr (Or.inr (Or.inr (Or.inl ⟨rfl, hlen.symm, rfl, hrt⟩))), hk'⟩
+
+theorem distinctRT_single (k : P) : DistinctRT [k] := by
+  intro as h
+  have hl : as.length = 1 := by rw [toAstL_length _ as h, toJsonL_length]; rfl
+  match as, hl with
+  | [a], _ => simp [Ast.buildL, distinctCount]
+
+/-- `Xor(*props)` / `ExactlyOne(*props)` -/
+theorem fragN_mkXor (args : List (Bool × P)) (oid) (cls) (hcls : cls = Cls.xor ∨ cls = Cls.exactlyOne)
+    (hk : ∀ k ∈ args.map (·.2), FragN k) : FragN (mkXor args oid cls) := by
+  have hx : ∀ k ∈ orderArgs args, FragN k := fun k h => hk k ((C04.orderArgs_perm args).mem_iff.1 h)
+  have hL := fragN_mkAtLeast 1 (orderArgs args) none none (Or.inl rfl) hx
+  have hM := fragN_mkAtMost 1 (orderArgs args) none hx
+  have hd : distinctCount [(false, mkAtLeast 1 (orderArgs args) none none), (false, mkAtMost 1 (orderArgs args) none)] = 2 :=
+    C04.distinct_two _ _ (C04.xor_halves_differ _)
+  have hperm := sortById_perm (orderArgs [(false, mkAtLeast 1 (orderArgs args) none none), (false, mkAtMost 1 (orderArgs args) none)])
+  have ho : orderArgs [(false, mkAtLeast 1 (orderArgs args) none none), (false, mkAtMost 1 (orderArgs args) none)] =
+      [mkAtLeast 1 (orderArgs args) none none, mkAtMost 1 (orderArgs args) none] := by simp [orderArgs]
+  rw [ho] at hperm
+  have hks : FragNL (sortById [mkAtLeast 1 (orderArgs args) none none, mkAtMost 1 (orderArgs args) none]) :=
+    (FragNL_perm hperm).2 (by simp [FragNL, hL, hM])
+  have hshape : XorShape (sortById [mkAtLeast 1 (orderArgs args) none none, mkAtMost 1 (orderArgs args) none]) := by
+    have hLe : mkAtLeast 1 (orderArgs args) none none =
+        .node (genId (sortById (orderArgs args)) 1 none) ⟨0, 1⟩ 1 1 (sortById (orderArgs args)) { cls := .atLeast, gen := true } := by
+      simp [mkAtLeast]
+    have hMe : mkAtMost 1 (orderArgs args) none =
+        .node (genId (sortById (orderArgs args)) (-1) (some (-1))) ⟨0, 1⟩ (-1) (-1) (sortById (orderArgs args)) { cls := .atMost, gen := true } := by
+      simp [mkAtMost, mkAtLeast]
+    rcases perm_pair hperm with h | h
+    · exact ⟨_, _, _, _, _, _, sortById (orderArgs args), Or.inl (by rw [h, hLe, hMe])⟩
+    · exact ⟨_, _, _, _, _, _, sortById (orderArgs args), Or.inr (by rw [h, hLe, hMe])⟩
+  unfold mkXor mkAll
+  generalize mkAtLeast 1 (orderArgs args) none none = L at *
+  generalize mkAtMost 1 (orderArgs args) none = M at *
+  rw [ho, hd]
+  unfold mkAtLeast
+  cases hv : varOf oid with
+  | none =>
+      unfold FragN
+      exact ⟨Or.inr (Or.inr (Or.inr (Or.inr (Or.inl ⟨hcls, rfl, rfl, hshape⟩)))), hks⟩
+  | some x =>
+      unfold FragN
+      exact ⟨Or.inr (Or.inr (Or.inr (Or.inr (Or.inl ⟨hcls, rfl, rfl, hshape⟩)))), hks⟩
+
+theorem sortById_single (k : P) : sortById [k] = [k] := List.perm_singleton.1 (sortById_perm [k])
+
+theorem orderArgs_single (a : Bool × P) : orderArgs [a] = [a.2] := by
+  obtain ⟨f, p⟩ := a
+  cases f <;> simp [orderArgs]
+
+theorem orderArgs_pair (x : P) (d : Bool × P) : orderArgs [(false, x), d] = [x, d.2] := by
+  obtain ⟨f, p⟩ := d
+  cases f <;> simp [orderArgs]
+
+theorem mkNot_isLeaf (isAtom : Bool) (a : Bool × P) (hl : isAtom = false → a.2.isLeaf = false) :
+    (mkNot isAtom a).isLeaf = false := by
+  unfold mkNot
+  split
+  · exact negate_isLeaf _ (by unfold mkAll; exact mkAtLeast_isLeaf _ _ _ _ _)
+  · rename_i h; exact negate_isLeaf _ (hl (by simpa using h))
+
+/-- `Not(p)` -/
+theorem fragN_mkNot (isAtom : Bool) (a : Bool × P) (ha : FragN a.2) : FragN (mkNot isAtom a) := by
+  unfold mkNot
+  split
+  · refine fragN_negate _ (fragN_mkAll [a] none (by simp [distinctCount]) ?_ (by simpa using ha))
+    rw [orderArgs_single, sortById_single]; exact distinctRT_single _
+  · exact fragN_negate _ ha
+
+/-- `Imply(condition, consequence)`: the negated condition and the consequence, in the order their ids sort -/
+theorem fragN_mkImply (cAtom : Bool) (c d : Bool × P) (oid) (hc : FragN c.2) (hd : FragN d.2)
+    (hcl : cAtom = false → c.2.isLeaf = false) (hid : (d.2.id == (mkNot cAtom c).id) = false) :
+    FragN (mkImply cAtom c d oid) := by
+  have hnc := fragN_mkNot cAtom c hc
+  have hncl := mkNot_isLeaf cAtom c hcl
+  unfold mkImply mkAny
+  generalize mkNot cAtom c = nc at *
+  show FragN ((mkAtLeast 1 (orderArgs [(false, nc), d]) (varOf oid) none Cls.imply).setCond nc.id)
+  rw [orderArgs_pair]
+  have hperm := sortById_perm [nc, d.2]
+  have hks : FragNL (sortById [nc, d.2]) := (FragNL_perm hperm).2 (by simp [FragNL, hnc, hd])
+  have hshape : ImplyShape (sortById [nc, d.2]) ((sortById [nc, d.2]).findIdx (fun k => k.id == nc.id)) := by
+    rcases perm_pair hperm with h | h
+    · exact ⟨nc, d.2, hncl, Or.inl ⟨h, by rw [h]; simp [List.findIdx_cons]⟩⟩
+    · exact ⟨nc, d.2, hncl, Or.inr ⟨h, by rw [h]; simp [List.findIdx_cons, hid]⟩⟩
+  unfold mkAtLeast
+  cases hv : varOf oid with
+  | none =>
+      simp only [setCond]
+      unfold FragN
+      exact ⟨Or.inr (Or.inr (Or.inr (Or.inr (Or.inr (Or.inl ⟨rfl, rfl, rfl, hshape⟩))))), hks⟩
+  | some x =>
+      simp only [setCond]
+      unfold FragN
+      exact ⟨Or.inr (Or.inr (Or.inr (Or.inr (Or.inr (Or.inl ⟨rfl, rfl, rfl, hshape⟩))))), hks⟩
+
+/-- `XNor(*props)`; `hid`: the generated ids of the two negated halves differ (they are SHA-256 digests of different texts) -/
+theorem fragN_mkXNor (args : List (Bool × P)) (oid) (hk : ∀ k ∈ args.map (·.2), FragN k)
+    (hid : ((negate (mkAtLeast 1 (orderArgs args) none none)).id == (negate (mkAtMost 1 (orderArgs args) none)).id) = false) :
+    FragN (mkXNor args oid) := by
+  have hx : ∀ k ∈ orderArgs args, FragN k := fun k h => hk k ((C04.orderArgs_perm args).mem_iff.1 h)
+  have hA := fragN_negate _ (fragN_mkAtLeast 1 (orderArgs args) none none (Or.inl rfl) hx)
+  have hB := fragN_negate _ (fragN_mkAtMost 1 (orderArgs args) none hx)
+  have hLe : mkAtLeast 1 (orderArgs args) none none =
+      .node (genId (sortById (orderArgs args)) 1 none) ⟨0, 1⟩ 1 1 (sortById (orderArgs args)) { cls := .atLeast, gen := true } := by
+    simp [mkAtLeast]
+  have hBe : negate (mkAtMost 1 (orderArgs args) none) =
+      .node (genId (sortById (sortById (orderArgs args))) 2 (some 1)) ⟨0, 1⟩ 1 2 (sortById (sortById (orderArgs args))) { gen := true } := by
+    simp [mkAtMost, mkAtLeast, negate, negFlat]
+  unfold mkXNor mkAny
+  rw [orderArgs_pair]
+  show FragN ((mkAtLeast 1 [negate (mkAtLeast 1 (orderArgs args) none none), negate (mkAtMost 1 (orderArgs args) none)] (varOf oid) none Cls.xnor).setCond
+    (negate (mkAtMost 1 (orderArgs args) none)).id)
+  have hperm := sortById_perm [negate (mkAtLeast 1 (orderArgs args) none none), negate (mkAtMost 1 (orderArgs args) none)]
+  have hks : FragNL (sortById [negate (mkAtLeast 1 (orderArgs args) none none), negate (mkAtMost 1 (orderArgs args) none)]) :=
+    (FragNL_perm hperm).2 (by simp [FragNL, hA, hB])
+  have hshape : XNorShape (sortById [negate (mkAtLeast 1 (orderArgs args) none none), negate (mkAtMost 1 (orderArgs args) none)])
+      ((sortById [negate (mkAtLeast 1 (orderArgs args) none none), negate (mkAtMost 1 (orderArgs args) none)]).findIdx
+        (fun k => k.id == (negate (mkAtMost 1 (orderArgs args) none)).id)) := by
+    refine ⟨genId (sortById (orderArgs args)) 1 none, ⟨0, 1⟩, { cls := .atLeast, gen := true }, sortById (orderArgs args),
+      genId (sortById (sortById (orderArgs args))) 2 (some 1), ⟨0, 1⟩, { gen := true }, sortById (sortById (orderArgs args)),
+      (sortById_perm (sortById (orderArgs args))).symm, ?_⟩
+    rcases perm_pair hperm with h | h
+    · refine Or.inl ⟨by rw [h, hLe, hBe], ?_⟩
+      rw [h]; simp [List.findIdx_cons, hid]
+    · refine Or.inr ⟨by rw [h, hLe, hBe], ?_⟩
+      rw [h]; simp [List.findIdx_cons]
+  generalize negate (mkAtLeast 1 (orderArgs args) none none) = A at *
+  generalize negate (mkAtMost 1 (orderArgs args) none) = B at *
+  unfold mkAtLeast
+  cases hv : varOf oid with
+  | none =>
+      simp only [setCond]
+      unfold FragN
+      exact ⟨Or.inr (Or.inr (Or.inr (Or.inr (Or.inr (Or.inr ⟨rfl, rfl, rfl, hshape⟩))))), hks⟩
+  | some x =>
+      simp only [setCond]
+      unfold FragN
+      exact ⟨Or.inr (Or.inr (Or.inr (Or.inr (Or.inr (Or.inr ⟨rfl, rfl, rfl, hshape⟩))))), hks⟩
+
+mutual
+/-- constructor expressions over the plog classes whose round trip the theorem covers: legal signs; `All` over pairwise
+    distinct arguments that stay distinct after the round trip (fails exactly on F16f); for `Imply` the consequence's id is
+    not the id of the negated condition, for `XNor` the two generated ids of the negated halves differ (digests of
+    different texts — not provable without evaluating SHA-256 symbolically, hence hypotheses) -/
+def RTExpr : Ast → Prop
+  | .var _ _ => True
+  | .str _ => True
+  | .atLeast _ as _ sgn => (sgn = none ∨ sgn = some 1 ∨ sgn = some (-1)) ∧ RTExprL as
+  | .atMost _ as _ => RTExprL as
+  | .all as _ => (distinctCount (Ast.buildL as) = as.length ∧ DistinctRT (sortById (orderArgs (Ast.buildL as)))) ∧ RTExprL as
+  | .any as _ => RTExprL as
+  | .xor as _ _ => RTExprL as
+  | .xnor as _ =>
+      (((negate (mkAtLeast 1 (orderArgs (Ast.buildL as)) none none)).id ==
+        (negate (mkAtMost 1 (orderArgs (Ast.buildL as)) none)).id) = false) ∧ RTExprL as
+  | .imply c d _ => ((d.build.id == (mkNot c.isAtom (c.isStr, c.build)).id) = false) ∧ RTExpr c ∧ RTExpr d
+  | .not a => RTExpr a
+  | .ccAny .. => False
+  | .ccXor .. => False
+  | .stingy .. => False
+def RTExprL : List Ast → Prop
+  | [] => True
+  | a :: as => RTExpr a ∧ RTExprL as
+end
+
+mutual
+/-- every model built by such an expression lies in the fragment -/
+theorem build_fragN : ∀ a, RTExpr a → FragN a.build ∧ (a.isAtom = false → a.build.isLeaf = false)
+  | .var i b, _ => ⟨by simp [Ast.build, FragN], by simp [Ast.isAtom]⟩
+  | .str i, _ => ⟨by simp [Ast.build, FragN], by simp [Ast.isAtom]⟩
+  | .atLeast v as oid sgn, h => by
+      have ⟨hs, hl⟩ : (sgn = none ∨ sgn = some 1 ∨ sgn = some (-1)) ∧ RTExprL as := by simpa [RTExpr] using h
+      have hk := buildL_fragN as hl
+      refine ⟨?_, fun _ => by simp [Ast.build, mkAtLeast_isLeaf]⟩
+      simp only [Ast.build]
+      exact fragN_mkAtLeast _ _ _ _ hs (fun k h => hk k ((C04.orderArgs_perm _).mem_iff.1 h))
+  | .atMost v as oid, h => by
+      have hl : RTExprL as := by simpa [RTExpr] using h
+      have hk := buildL_fragN as hl
+      refine ⟨?_, fun _ => by simp [Ast.build, mkAtMost, mkAtLeast_isLeaf]⟩
+      simp only [Ast.build]
+      exact fragN_mkAtMost _ _ _ (fun k h => hk k ((C04.orderArgs_perm _).mem_iff.1 h))
+  | .all as oid, h => by
+      have ⟨⟨hd, hrt⟩, hl⟩ : (distinctCount (Ast.buildL as) = as.length ∧ DistinctRT (sortById (orderArgs (Ast.buildL as)))) ∧
+          RTExprL as := by simpa [RTExpr] using h
+      have hk := buildL_fragN as hl
+      refine ⟨?_, fun _ => by simp [Ast.build, mkAll, mkAtLeast_isLeaf]⟩
+      simp only [Ast.build]
+      exact fragN_mkAll _ _ (by rw [hd, buildL_length]) hrt hk
+  | .any as oid, h => by
+      have hl : RTExprL as := by simpa [RTExpr] using h
+      have hk := buildL_fragN as hl
+      refine ⟨?_, fun _ => by simp [Ast.build, mkAny, mkAtLeast_isLeaf]⟩
+      simp only [Ast.build]
+      exact fragN_mkAny _ _ hk
+  | .xor as oid e, h => by
+      have hl : RTExprL as := by simpa [RTExpr] using h
+      have hk := buildL_fragN as hl
+      refine ⟨?_, fun _ => by simp [Ast.build, mkXor, mkAll, mkAtLeast_isLeaf]⟩
+      simp only [Ast.build]
+      exact fragN_mkXor _ _ _ (by cases e <;> simp) hk
+  | .xnor as oid, h => by
+      have ⟨hid, hl⟩ : (((negate (mkAtLeast 1 (orderArgs (Ast.buildL as)) none none)).id ==
+          (negate (mkAtMost 1 (orderArgs (Ast.buildL as)) none)).id) = false) ∧ RTExprL as := by simpa [RTExpr] using h
+      have hk := buildL_fragN as hl
+      refine ⟨?_, fun _ => by simp [Ast.build, mkXNor, mkAny, mkAtLeast_isLeaf, C04.setCond_isLeaf]⟩
+      simp only [Ast.build]
+      exact fragN_mkXNor _ _ hk hid
+  | .imply c d oid, h => by
+      have ⟨hid, hc, hd⟩ : ((d.build.id == (mkNot c.isAtom (c.isStr, c.build)).id) = false) ∧ RTExpr c ∧ RTExpr d := by
+        simpa [RTExpr] using h
+      have ⟨c1, c2⟩ := build_fragN c hc
+      have ⟨d1, _⟩ := build_fragN d hd
+      refine ⟨?_, fun _ => ?_⟩
+      · simp only [Ast.build]
+        exact fragN_mkImply _ _ _ _ c1 d1 c2 hid
+      · simp only [Ast.build, mkImply, mkAny, mkAtLeast]
+        cases oid <;> simp [varOf, setCond, isLeaf]
+  | .not a, h => by
+      have ha : RTExpr a := by simpa [RTExpr] using h
+      have ⟨a1, a2⟩ := build_fragN a ha
+      refine ⟨?_, fun _ => ?_⟩
+      · simp only [Ast.build]; exact fragN_mkNot _ _ a1
+      · simp only [Ast.build]; exact mkNot_isLeaf _ _ a2
+  | .ccAny .., h => by simp [RTExpr] at h
+  | .ccXor .., h => by simp [RTExpr] at h
+  | .stingy .., h => by simp [RTExpr] at h
+theorem buildL_fragN : ∀ as, RTExprL as → ∀ k ∈ (Ast.buildL as).map (·.2), FragN k
+  | [], _ => by simp [Ast.buildL]
+  | a :: as, h => by
+      have ⟨h1, h2⟩ : RTExpr a ∧ RTExprL as := by simpa [RTExprL] using h
+      intro k hk
+      simp only [Ast.buildL, List.map_cons, List.mem_cons] at hk
+      rcases hk with rfl | hk
+      · exact (build_fragN a h1).1
+      · exact buildL_fragN as h2 k hk
+end
+
+/-- **the round trip of what the constructors build**: for every constructor expression `a` over variables, AtLeast,
+    AtMost, All, Any, Xor / ExactlyOne, XNor, Imply and Not (nested arbitrarily, under `RTExpr`), `from_json(to_json(model))`
+    succeeds and evaluates like the model on every assignment that respects the leaf bounds -/
+theorem build_roundtrip (a : Ast) (h : RTExpr a) :
+    ∃ a', PJ.toAst false (toJson a.build) = some a' ∧ ∀ σ, Good σ a.build → evalPt σ a'.build = evalPt σ a.build :=
+  fragN_roundtrip a.build (build_fragN a h).1
+
 /-! ## … and defaults: what `cc.Any` / `cc.Xor` write as `default` is what the configurator reads back -/
 
 theorem mt_mkAtLeast (v : Int) (ks : List P) (var sgn cls) :
@@ -850,5 +1247,22 @@ example :
     let t : P := .node "A" ⟨0,1⟩ 1 1 [.leaf "a" ⟨0,1⟩, inner] { cls := .ccAny, dflt := [("a", ⟨0,1⟩)] }
     PJ.toAst true (toJson t) = some (.ccAny [.var "a" ⟨0,1⟩, .var "b" ⟨0,1⟩, .var "c" ⟨0,1⟩] [("a", ⟨0,1⟩)] (some "A")) := by
   simp [toJson, ccAnyProps, toJsonL, leafJ, idJ, PJ.toAst, PJ.toAstL, P.mt]
+
+theorem negate_id_explicit (i b s v ks) (m : Meta) (hg : m.gen = false) : (negate (.node i b s v ks m)).id = i := by
+  simp only [negate, hg]
+  split
+  · split
+    · rfl
+    · split
+      · rfl
+      · split <;> rfl
+  · rfl
+
+/-- non-vacuity of `build_roundtrip`: `Imply(Any(a, b, variable="C"), "c", variable="I")` satisfies `RTExpr` -/
+example : RTExpr (.imply (.any [.str "a", .str "b"] (some "C")) (.str "c") (some "I")) := by
+  simp only [RTExpr, RTExprL, and_true, Ast.build, Ast.isAtom, Ast.isStr, mkNot, mkAny, mkAtLeast, varOf, Option.map,
+    Bool.false_eq_true, if_false]
+  rw [negate_id_explicit _ _ _ _ _ _ rfl]
+  decide
 
 end Puan.C16
